@@ -30,7 +30,7 @@ Definition dJob : dec job :=
   let* c := dOpt dZ in let* f := dOpt dZ in ret (mkJob n u o p c f).
 Definition dSpec : dec cspec :=
   let* cr := dZ in let* su := dBool in let* po := dPolicy in let* dl := dOpt dZ in
-  let* sl := dOpt dZ in let* fl := dOpt dZ in ret (mkSpec cr su po dl sl fl).
+  let* sl := dOpt dZ in let* fl := dOpt dZ in let* tz := dBool in ret (mkSpec cr su po dl sl fl tz).
 Definition dStatus : dec cstatus :=
   let* l := dOpt dZ in let* a := dList dRef in let* ls := dOpt (dOpt dZ) in ret (mkStatus l a ls).
 
@@ -43,6 +43,24 @@ Definition dSched : dec sched :=
   if k =? 0 then let* t := dList dZ in ret (STable t)
   else if k =? 1 then let* p := dZ in (if p <? sec then fail else ret (SEvery p))
   else fail.
+
+Definition dTz : dec tzspec :=
+  let* k := dZ in
+  if k =? 0 then ret TzNil else if k =? 1 then let* z := dZ in ret (TzLoads z)
+  else if k =? 2 then ret TzInvalid else fail.
+Definition dKind : dec skind :=
+  let* k := dZ in
+  if k =? 0 then ret KFive else if k =? 1 then ret KEvery else if k =? 2 then ret KDescriptor else fail.
+(* two ids the model ignores (schedule id, zone id), then what it sees of them *)
+Definition dZoneCase : dec (tzspec * sstr) :=
+  let* _ := dZ in let* _ := dZ in
+  let* tz := dTz in let* k := dKind in let* e := dOpt dZ in ret (tz, mkSstr k e).
+Definition dFmt : dec fmt_res :=
+  let* k := dZ in if k =? 0 then ret FmtAsIs else if k =? 1 then let* z := dZ in ret (FmtPrefixed z) else fail.
+Definition dZone : dec zone :=
+  let* k := dZ in if k =? 0 then ret ZLocal else if k =? 1 then let* z := dZ in ret (ZNamed z) else fail.
+Definition eFmt (f : fmt_res) : list Z := match f with FmtAsIs => [0] | FmtPrefixed z => [1; z] end.
+Definition eZone (z : zone) : list Z := match z with ZLocal => [0] | ZNamed z => [1; z] end.
 
 Definition dOp : dec op :=
   let* k := dZ in
@@ -133,6 +151,17 @@ Definition entry (sel : Z) (toks : list Z) : list Z :=
               tag 4 ++ eOpt eZ (requeue_after (next_of tbl) (fuel_of tbl) cr l d now)
             else bad_input
           | None => bad_input end
+  (* --- cron: the zone of the schedule --- *)
+  | 12 => match run_dec dZoneCase toks with
+          | Some (tz, s) =>
+            tag 1 ++ eFmt (format_schedule tz s) ++
+            tag 2 ++ eBool (validate_tz tz) ++
+            tag 3 ++ (match ss_kind s, validate_tz tz with
+                      | KEvery, _ => [0]
+                      | _, false => [0]
+                      | _, true => 1 :: eZone (zone_used tz s)
+                      end)
+          | None => bad_input end
   (* --- cron: a history of reconciles and environment events --- *)
   | 20 => match run_dec (let* tbl := dSched in let* len := dBool in let* sp := dSpec in let* st := dStatus in
                          let* js := dList dJob in let* u := dZ in let* ops := dList dOp in
@@ -155,6 +184,9 @@ Definition entry (sel : Z) (toks : list Z) : list Z :=
            | Some (tbl, cr, l, d, now, ch) => eBool (law_choice tbl cr l d now ch) | None => bad_input end
   | 111 => match run_dec (dPair dTable (dList (dPair dTime dTime))) toks with
            | Some (tbl, qs) => eBool (law_table tbl qs) | None => bad_input end
+  | 112 => match run_dec (let* c := dZoneCase in let* f := dFmt in let* v := dBool in let* z := dOpt dZone in
+                          ret (c, f, v, z)) toks with
+           | Some ((tz, s), f, v, z) => eBool (law_zone tz s f v z) | None => bad_input end
   | 120 => match run_dec (dList dZ) toks with
            | Some cr => eBool (law_history cr) | None => bad_input end
   | 121 => match run_dec (dPair dTable dObs) toks with
